@@ -40,7 +40,8 @@ def sweep_case(T):
         except Exception as e:
             return [(f"C11:legacy-emulator-raises:{type(e).__name__}", f"T={T}: {e}"[:200])]
         nrm = float(np.sum(np.abs(fin) ** 2))
-        if abs(nrm - 1) > 1e-5:
+        tolT = 1e-5 * max(1.0, T / 1000)  # solver error grows with the integration time
+        if abs(nrm - 1) > tolT:
             out.append(("C11:norm-not-preserved:legacy", f"T={T}: |psi|^2 = {nrm}"))
         # The samples are interpolated by the solver and the last one (at t = T) is the zero padding, so the
         # effective pulse area lies between Omega (T-1) and Omega T: the analytic value must fall in that range.
@@ -52,10 +53,13 @@ def sweep_case(T):
             res = QutipBackendV2(seq).run()
         except Exception as e:
             return out + [(f"C11:v2-raises-where-legacy-runs:{type(e).__name__}", f"T={T}: {e}"[:200])]
-        st = res.get_result("state", 1.0) if hasattr(res, "get_result") else None
+        try:
+            st = res.get_result("state", 1.0)
+        except ValueError as e:
+            return out + [("C11:v2-final-state-not-at-time-1", f"T={T}: stored times {res.get_result_times('state')}: {e}"[:200])]
         v2 = st.to_qobj().full().ravel()
         ov = abs(np.vdot(v2, fin))
-        if abs(ov - 1) > 1e-5:
+        if abs(ov - 1) > 2 * tolT:
             out.append(("C11:v2-state-differs-from-legacy", f"T={T}: |<v2|legacy>| = {ov}"))
     return out + [("@sweep", "")]
 
